@@ -100,16 +100,18 @@ class SymCoverage(Coverage):
             # symbolic counts stand for the observations that passed the quality filter
             # (that filter is decided on symbolic qualities in C15/quality)
             return SymCoverage(self.gene, self.profile, self._sc, self._tot, self.sam, False)
-        # real filtering semantics on symbolic counts: keep iff fn(...) is truthy
-        new = SymCoverage(self.gene, self.profile, {}, self._tot, self.sam, False)
-        for (pos, op), c in self._sc.items():
-            f = fn(self, Mutation(pos, op))
+        # the real Coverage.filtered on the table of symbolic-length lists; the predicate's
+        # symbolic truth value forks the path and is handed over as a python bool
+        def decided(cov, mut):
+            f = fn(cov, mut)
             if isinstance(f, list):
                 raise TypeError("list-returning filters need a real Coverage")
-            if f:
-                new._sc[pos, op] = c
-                new._coverage.setdefault(pos, {})[op] = SymList(c)
-        # totals after filtering = sum of the kept non-insertion counts
+            return bool(f)
+
+        new = Coverage.filtered(self, decided)
+        new._identity = False
+        new._lowq = {}
+        new._sc = {(pos, op): v.n for pos, d in new._coverage.items() for op, v in d.items()}
         tot = collections.defaultdict(lambda: 0)
         for (pos, op), c in new._sc.items():
             if op[:3] != "ins":
